@@ -232,6 +232,8 @@ def array_cases(rec, hub, rng, tier, i):
                 except Exception as e:
                     rec.violation(MA, f"array-plot:raised-on-a-valid-configuration:{plotter_name}", {"exc": f"{type(e).__name__}: {str(e)[:300]}", "roles": sig})
                     continue
+                if not any(fig is e_[0] for e_ in EARLIER):
+                    earlier_figures_unchanged(rec, plt)
                 try:
                     judge_figure(rec, fd, plotter_name, chart, fig, arr, L, dims, xl, sl, ll, x_arr, sig + ("|display" if disp else ""), disp=disp)
                     if chart == "line" and rng.random() < 0.35:
@@ -248,23 +250,15 @@ def array_cases(rec, hub, rng, tier, i):
                         else:
                             judge_figure(rec, fd, plotter_name, chart, fig2, arr2, LArr.from_snap(Snap(arr2)), dims, xl, sl, ll, x_arr, sig + "|second", skip=n_before, disp=disp)
                 finally:
-                    if plotter_name == "pyplot":
-                        plt.close(fig)
+                    try:
+                        EARLIER.append((fig, plotter_name, chart, observe(fig, plotter_name, chart), sig))  # kept until the next plot is made
+                    except Exception:
+                        if plotter_name == "pyplot":
+                            plt.close(fig)
 
 
-def _norm(v):
-    try:
-        return float(v)
-    except (TypeError, ValueError):
-        return str(v)
-
-
-def judge_figure(rec, fd, plotter_name, chart, fig, arr, L, dims, xl, sl, ll, x_arr, sig, skip=None, disp=None):
-    s_items = list(dims[sl].items) if sl else [None]
-    l_items = list(dims[ll].items) if ll else [None]
-    x_items = list(dims[xl].items)
-    X = LArr.from_snap(Snap(x_arr)) if x_arr is not None else None
-    # observed lines: list of (subplot index, name, x list, y list)
+def observe(fig, plotter_name, chart, skip=None):
+    """observed lines: list of (subplot index, name, x list, y list)"""
     obs = []
     if plotter_name == "plotly":
         for tr in (fig.data if skip is None else fig.data[skip:]):
@@ -280,6 +274,40 @@ def judge_figure(rec, fd, plotter_name, chart, fig, arr, L, dims, xl, sl, ll, x_
                 for col in ax.collections:
                     off = col.get_offsets()
                     obs.append((idx, str(col.get_label()), [float(v) for v in off[:, 0]], [float(v) for v in off[:, 1]]))
+    return obs
+
+
+EARLIER = []  # figures made earlier in this process and still held by the "user": (figure, plotter, chart, what it showed, roles)
+
+
+def earlier_figures_unchanged(rec, plt):
+    """a figure the user still holds shows what it showed, whatever was plotted since (figures are not shared between plotters)"""
+    while EARLIER:
+        fig0, pn0, chart0, obs0, sig0 = EARLIER.pop()
+        try:
+            now = observe(fig0, pn0, chart0)
+        except Exception as e:
+            now = f"unreadable: {type(e).__name__}"
+        rec.event(MA, sig=f"earlier-figure|{pn0}|{chart0}", cls=f"{pn0}|earlier-figure-after-a-later-plot")
+        if now != obs0:
+            rec.violation(MA, f"array-plot:an-earlier-figure-changed-when-another-array-was-plotted:{pn0}", {"roles_of_the_earlier_figure": sig0, "lines_before": len(obs0), "lines_now": len(now) if isinstance(now, list) else now})
+        if pn0 == "pyplot":
+            plt.close(fig0)
+
+
+def _norm(v):
+    try:
+        return float(v)
+    except (TypeError, ValueError):
+        return str(v)
+
+
+def judge_figure(rec, fd, plotter_name, chart, fig, arr, L, dims, xl, sl, ll, x_arr, sig, skip=None, disp=None):
+    s_items = list(dims[sl].items) if sl else [None]
+    l_items = list(dims[ll].items) if ll else [None]
+    x_items = list(dims[xl].items)
+    X = LArr.from_snap(Snap(x_arr)) if x_arr is not None else None
+    obs = observe(fig, plotter_name, chart, skip)
     exp = []
     for si, s in enumerate(s_items):
         for l in l_items:
